@@ -157,6 +157,18 @@ func (x *Ex) genFuncsMore(body *LeanFile) {
 		{"", "", "ApplyForFile"},
 		{"", "", "ApplyForReader"},
 	})
+	// tree helpers every stage leans on: the deep copy the converter works on (Model/Render.lean
+	// `dedupNode ∘ id`: a complete copy), ancestor tests, foreign raw-text test
+	x.bodyGroup(body, "domHelperBodies", []string{"C03", "C05", "C10", "C20"}, [][3]string{
+		{"internal/domutil", "", "Clone"},
+		{"internal/domutil", "", "IsForeignRawTextElement"},
+		{"internal/domutil", "", "HasAncestor"},
+		{"internal/domutil", "", "Contains"},
+		{"internal/domutil", "", "SomeNode"},
+		{"internal/domutil", "", "NodeName"},
+		{"internal/domutil", "", "GetFirstElementByTagName"},
+		{"internal/domutil", "", "GetFirstElementByTagNameInc"},
+	})
 	// the rendering of Text elements and of the document: what Model/TextRender.lean models
 	x.bodyGroup(body, "textRenderBodies", []string{"C01", "C02", "C05", "C06", "C07", "C09"}, [][3]string{
 		{"internal/webdoc", "Text", "GenerateOutput"},
